@@ -242,4 +242,42 @@ def groupIdent (g : Graph) (v : Nat) (k : GKey) : String × List (Nat × Option 
 def registrySize (g : Graph) (vs : List Nat) : Nat :=
   ((vs.flatMap (fun v => (groupKeys g v).map (groupIdent g v))).eraseDups).length
 
+/-! ### histories: the declared configuration and what an observer records (data types shared by the
+        model `History.lean`, the specification `Spec.lean` and the driver) -/
+
+/-- The configuration as declared so far: the checkables with their states, the live `Dependency`
+    objects (id, value) and which pool periods are closed right now (`tp && !tp->IsInside(now)`). -/
+structure Cfg where
+  node : Nat → Node
+  live : List (Nat × Dep) := []
+  closed : Nat → Bool := fun _ => false
+
+/-- dependency.cpp:323-324 with `GetPeriod()` resolved: closed iff the dependency names a period and that
+    period is closed now. -/
+def Cfg.eff (c : Cfg) (d : Dep) : Dep :=
+  { d with periodClosed := match d.period with | some p => c.closed p | none => false }
+
+def Cfg.graph (c : Cfg) : Graph := { node := c.node, deps := c.live.map (fun x => c.eff x.2) }
+
+/-- One recorded step of a history: the operation and, after `|` in the harness's lines, what the
+    implementation answered. -/
+inductive HObs
+  | load (batch : List (Nat × Dep)) (accepted : Bool) (ndeps : Nat → Nat)   -- initial load, later batch, runtime creation
+  | remove (id : Nat)                                                        -- `Dependency::Stop` / DeleteObject
+  | setState (v : Nat) (checked : Bool) (raw : Nat) (hard : Bool)
+  | setPeriod (p : Nat) (closed : Bool)
+  | query (obs : Aspect → Nat → Bool) (ndeps : Nat → Nat)                    -- IsReachable x 3 aspects, GetDependencies().size()
+  | edges (par chi rev : Nat → List Nat)                                     -- GetParents / GetChildren / GetReverseDependencies
+
+/-- what the recorded step means for the declared configuration (an accepted load adds its batch, a
+    refused one nothing). -/
+def Cfg.next (c : Cfg) : HObs → Cfg
+  | .load batch acc _ => if acc then { c with live := c.live ++ batch } else c
+  | .remove id => { c with live := c.live.filter (fun x => x.1 != id) }
+  | .setState v ck r h =>
+    { c with node := fun w => if w == v then { c.node w with checked := ck, stateRaw := r, hard := h } else c.node w }
+  | .setPeriod p cl => { c with closed := fun q => if q == p then cl else c.closed q }
+  | .query _ _ => c
+  | .edges _ _ _ => c
+
 end Icinga.C07
